@@ -101,10 +101,14 @@ CParse(ts) ==
 (* ---- operational parse: one function per level, generic in the table -- *)
 (* A table: max (number of binary levels), ops[L] (operators of level L, 1 = loosest),
    loop[L] (TRUE: `while` another operator of the level follows; FALSE: at most one, `if`). *)
+(* (written out as tuples: TLC would re-evaluate a function constructor at every application;
+   CTableMatchesCPrec ties the tuple to CPrec) *)
 CTable ==
   [max |-> 10,
-   ops |-> [L \in 1..10 |-> {op \in BinOps : CPrec(op) = L}],
-   loop |-> [L \in 1..10 |-> TRUE]]
+   ops |-> <<{"||"}, {"&&"}, {"|"}, {"^"}, {"&"}, {"==", "!="}, {"<", "<=", ">", ">="}, {"<<", ">>"},
+             {"+", "-"}, {"*", "/", "%"}>>,
+   loop |-> <<TRUE, TRUE, TRUE, TRUE, TRUE, TRUE, TRUE, TRUE, TRUE, TRUE>>]
+CTableMatchesCPrec == \A L \in 1..10 : CTable.ops[L] = {op \in BinOps : CPrec(op) = L}
 (* libwild/src/linker_script.rs: parse_logical_or > parse_logical_and > parse_comparison (a single
    optional comparison, all six operators on one level) > parse_bitwise_or > parse_bitwise_xor >
    parse_bitwise_and > parse_shift > parse_additive > parse_multiplicative (no %) > parse_unary *)
@@ -210,6 +214,14 @@ Eval(a, sdiv) ==
 
 Value(ts) == Eval(CParse(ts), TRUE)
 AssertFails(ts) == LET v == Value(ts) IN v.st = "ok" /\ v.w = WZero
+
+(* some ALIGN in the tree is applied to 0 (GNU ld: the value is the location counter; wild refuses) *)
+RECURSIVE AlignOfZero(_)
+AlignOfZero(a) ==
+  CASE a.k = "lit" -> FALSE
+    [] a.k = "un" -> AlignOfZero(a.a)
+    [] a.k \in {"bin", "fn2"} -> AlignOfZero(a.l) \/ AlignOfZero(a.r)
+    [] a.k = "fn1" -> AlignOfZero(a.a) \/ (LET z == Eval(a.a, TRUE) IN z.st = "ok" /\ z.w = WZero)
 
 HasDiv(ts) == \E i \in 1..Len(ts) : ts[i] \in {"/", "%"}
 =============================================================================
